@@ -240,7 +240,7 @@ impl PublishBuilder {
             // handle client receive maximum
             if let Some(rx) = self.shared.wait_readiness() {
                 Either::Left(Either::Left(async move {
-                    if rx.await.is_err() {
+                    if rx.await.is_err() || !self.shared.wait_ready().await {
                         return Err(SendPacketError::Disconnected);
                     }
                     self.send_at_least_once_inner(payload).await
@@ -311,7 +311,7 @@ impl PublishBuilder {
             // handle client receive maximum
             if let Some(rx) = self.shared.wait_readiness() {
                 Either::Left(Either::Left(async move {
-                    if rx.await.is_err() {
+                    if rx.await.is_err() || !self.shared.wait_ready().await {
                         return Err(SendPacketError::Disconnected);
                     }
                     self.send_exactly_once_inner(payload).await
@@ -363,7 +363,7 @@ impl PublishBuilder {
             // handle client receive maximum
             let fut = if let Some(rx) = self.shared.wait_readiness() {
                 Either::Left(Either::Left(async move {
-                    if rx.await.is_err() {
+                    if rx.await.is_err() || !self.shared.wait_ready().await {
                         return Err(SendPacketError::Disconnected);
                     }
                     self.stream_at_least_once_inner(tx).await
@@ -379,6 +379,11 @@ impl PublishBuilder {
         mut self,
         tx: pool::Sender<()>,
     ) -> Result<(), SendPacketError> {
+        // handle client receive maximum
+        if !self.shared.wait_ready().await {
+            return Err(SendPacketError::Disconnected);
+        }
+
         // packet id
         let idx = self.shared.set_publish_id(&mut self.packet);
 
@@ -479,9 +484,7 @@ impl SubscribeBuilder {
             Err(SendPacketError::Disconnected)
         } else {
             // handle client receive maximum
-            if let Some(rx) = self.shared.wait_readiness()
-                && rx.await.is_err()
-            {
+            if !self.shared.wait_ready().await {
                 return Err(SendPacketError::Disconnected);
             }
             let idx = self.id.unwrap_or_else(|| self.shared.next_id());
@@ -564,9 +567,7 @@ impl UnsubscribeBuilder {
             Err(SendPacketError::Disconnected)
         } else {
             // handle client receive maximum
-            if let Some(rx) = shared.wait_readiness()
-                && rx.await.is_err()
-            {
+            if !shared.wait_ready().await {
                 return Err(SendPacketError::Disconnected);
             }
             // allocate packet id
